@@ -65,6 +65,7 @@ namespace
     struct CReadline
     {
         static const char *flavour() { return "c"; }
+        static constexpr bool public_only = false; // struct readline / struct vterm_automate are public C structs
         struct readline rl;
         unsigned cap;
         char *buf, *hs;
@@ -97,6 +98,7 @@ namespace
     struct CVterm
     {
         static const char *flavour() { return "c"; }
+        static constexpr bool public_only = false, has_line = true;
         struct vterm_automate vt;
         unsigned cap;
         char *buf, *hs;
